@@ -1,5 +1,6 @@
 import Dashu.Proofs.Int.Div
 import Dashu.Proofs.Int.NumModular
+import Dashu.Proofs.Int.NumModularContract
 import Dashu.Proofs.Int.DivMemory
 import Dashu.Proofs.Int.PrimDiv
 import Dashu.Props.GenInt
@@ -658,6 +659,13 @@ theorem nm_div_rem_4by2_exact (W d aLo aHi : Nat) (hW : 1 ≤ W) (hd1 : 2 ^ (2 *
       = ((aLo + 2 ^ (2 * W) * aHi) / d, (aLo + 2 ^ (2 * W) * aHi) % d) :=
   NumModular.div4by2_spec W d aLo aHi hW hd1 hd2 hlo hhi
 
+/-- `div_rem_1by1` and `div_rem_2by2` (one comparison and one subtraction) on a normalised divisor -/
+theorem nm_div_rem_1by1_2by2_exact (W d a : Nat) (hd : 0 < d) :
+    (2 ^ W ≤ 2 * d → a < 2 ^ W → div1by1 d a = (a / d, a % d)) ∧
+    (2 ^ (2 * W) ≤ 2 * d → a < 2 ^ (2 * W) → div2by2 d a = (a / d, a % d)) :=
+  ⟨fun h1 h2 => NumModular.Contract.div_rem_1by1 W d a h1 h2 hd,
+   fun h1 h2 => NumModular.Contract.div_rem_2by2 W d a h1 h2 hd⟩
+
 /-- the contract parameters of the division model are discharged: on a normalised divisor (which
     `FastDivideNormalized::new` asserts) the model's `div2by1 / div3by2 / div4by2` (exact floor
     division under the crate's precondition) ARE the mirrored num-modular algorithms -/
@@ -752,5 +760,94 @@ example : NumModular.div3by2 64 (2 ^ 127 + 1) (NumModular.invertDoubleWord 64 (2
 
 -- `i8`: −128 and −3 are in range and the Euclidean fix-up path (negative remainder, negative divisor) runs
 example : PrimDiv.divRemEuclid ⟨8, true⟩ (-128) (-3) = .ok (43, 1) := by decide
+
+-- ================================================================== non-vacuity, continued
+-- (every theorem with hypotheses is instantiated on a concrete non-trivial value, W = 64)
+
+-- div_by_word_exact / rem_by_word_exact: a 3-word slice, non-power-of-two word divisor (shift ≠ 0)
+example : IsWords 64 [7, 0, 2 ^ 64 - 1] ∧ (0 : Nat) < 10 ∧ 10 < 2 ^ 64 ∧
+    divByWordInPlace 64 [7, 0, 2 ^ 64 - 1] 10
+      = .ok ([0, 9223372036854775808, 1844674407370955161], 7) ∧
+    remByWord 64 [7, 0, 2 ^ 64 - 1] 10 = .ok 7 := by
+  refine ⟨by decide, by decide, by decide, by decide, by decide⟩
+
+-- div_by_dword_exact / rem_by_dword_exact: power-of-two double-word divisor 2^100 (the shortcut path)
+example : IsWords 64 [5, 6, 7] ∧ 2 ≤ [5, 6, 7].length ∧ 2 ^ 64 ≤ 2 ^ 100 ∧ 2 ^ 100 < 2 ^ (2 * 64) ∧
+    divByDwordInPlace 64 [5, 6, 7] (2 ^ 100) = .ok ([1879048192, 0, 0], 5 + 6 * 2 ^ 64) ∧
+    remByDword 64 [5, 6, 7] (2 ^ 100) = .ok (5 + 6 * 2 ^ 64) := by
+  refine ⟨by decide, by decide, by decide, by decide, by decide, by decide⟩
+
+-- simple_div_rem_exact: normalised 2-word divisor, 4-word dividend whose top words exceed it (carry 1)
+example : 2 ≤ [1, 2 ^ 63].length ∧ [1, 2 ^ 63].length ≤ [0, 0, 5, 2 ^ 64 - 1].length ∧
+    IsWords 64 [0, 0, 5, 2 ^ 64 - 1] ∧ IsWords 64 [1, 2 ^ 63] ∧
+    2 ^ (64 * [1, 2 ^ 63].length) ≤ 2 * val 64 [1, 2 ^ 63] ∧
+    (simpleDivRemInPlace 64 [0, 0, 5, 2 ^ 64 - 1] [1, 2 ^ 63] (highestDword 64 [1, 2 ^ 63])).toOption.map Prod.snd
+      = some 1 := by
+  refine ⟨by decide, by decide, by decide, by decide, by decide, by decide⟩
+
+-- div_rem_large_exact: 4-word by 3-word, divisor top word 1 (shift 63)
+example : IsWords 64 [1, 2, 3, 4] ∧ IsWords 64 [9, 8, 1] ∧ 2 ≤ [9, 8, 1].length ∧
+    [9, 8, 1].length ≤ [1, 2, 3, 4].length ∧ [9, 8, 1].getD ([9, 8, 1].length - 1) 0 ≠ 0 := by
+  refine ⟨by decide, by decide, by decide, by decide, by decide⟩
+
+-- the UBig dispatch theorems: canonical heap dividend, canonical inline non-zero divisor
+example : (TRepr.large [1, 2, 3]).Canon 64 ∧ (TRepr.small (2 ^ 64 + 1)).Canon 64 ∧
+    (TRepr.small (2 ^ 64 + 1)).value 64 ≠ 0 ∧ (1 : Nat) ≤ 64 ∧ 4 ≤ 64 := by
+  refine ⟨by decide, by decide, by decide, by decide, by decide⟩
+
+-- the IBig sign-table theorems: well-formed negative heap dividend, negative inline divisor
+example : (⟨true, .large [1, 2, 3]⟩ : SRepr).WF 64 ∧ (⟨true, .small 7⟩ : SRepr).WF 64 ∧
+    (⟨true, .small 7⟩ : SRepr).value 64 ≠ 0 ∧
+    (ibigDivRemEuclid 64 ⟨true, .large [1, 2, 3]⟩ ⟨true, .small 7⟩).toOption.map
+      (fun p => (p.1.value 64, p.2.value 64))
+      = some ((-(1 + 2 * 2 ^ 64 + 3 * 2 ^ 128) : Int) / (-7), ((-(1 + 2 * 2 ^ 64 + 3 * 2 ^ 128) : Int) % (-7)).toNat) := by
+  refine ⟨?_, ?_, by decide, by decide⟩
+  · exact ⟨by decide, by decide⟩
+  · exact ⟨by decide, by decide⟩
+
+-- ubig_ibig_*: canonical UBig dividend, well-formed negative IBig divisor
+example : (TRepr.large [0, 0, 1]).Canon 64 ∧ (⟨true, .small 3⟩ : SRepr).WF 64 ∧
+    (ubigIbigDivRem 64 (.large [0, 0, 1]) ⟨true, .small 3⟩).toOption.map (fun p => (p.1.value 64, p.2.value 64))
+      = some (Int.tdiv (2 ^ 128) (-3), 1) := by
+  refine ⟨by decide, ⟨by decide, by decide⟩, by decide⟩
+
+-- is_multiple_of (UBig, IBig, const): a multiple and a non-multiple
+example : ubigIsMultipleOf 64 (.large [0, 0, 6]) (.small 3) = .ok true ∧
+    ubigIsMultipleOf 64 (.large [1, 0, 6]) (.small 3) = .ok false ∧
+    ibigIsMultipleOf 64 ⟨true, .large [0, 0, 6]⟩ ⟨true, .small 3⟩ = .ok true ∧
+    isMultipleOfDword 64 (.large [0, 0, 6]) (2 ^ 64 + 1) = .ok false ∧ (2 ^ 64 + 1 ≠ 0) ∧
+    2 ^ 64 + 1 < 2 ^ (2 * 64) := by
+  refine ⟨by decide, by decide, by decide, by decide, by decide, by decide⟩
+
+-- ConstDivisor: a canonical 3-word divisor (the `large` class), value() gives it back, IBig forms
+example : (TRepr.large [9, 8, 1]).Canon 64 ∧ (TRepr.large [9, 8, 1]).value 64 ≠ 0 ∧
+    ((ConstDiv.new 64 (.large [9, 8, 1])).toOption.bind (fun c => (c.value 64).toOption)).map (TRepr.value 64)
+      = some (val 64 [9, 8, 1]) ∧
+    ((ConstDiv.new 64 (.large [9, 8, 1])).toOption.bind
+      (fun c => (ibigDivRemConst 64 ⟨true, .large [1, 2, 3, 4]⟩ c).toOption)).map
+        (fun p => (p.1.value 64, p.2.value 64))
+      = some (Int.tdiv (-(val 64 [1, 2, 3, 4] : Int)) (val 64 [9, 8, 1]),
+              Int.tmod (-(val 64 [1, 2, 3, 4] : Int)) (val 64 [9, 8, 1])) := by
+  refine ⟨by decide, by decide, by decide, by decide⟩
+
+-- num-modular: normalised word 2^63 + 5, dividend with the largest admissible high word
+example : (1 : Nat) ≤ 64 ∧ 2 ^ 64 ≤ 2 * (2 ^ 63 + 5) ∧ 2 ^ 63 + 5 < 2 ^ 64 ∧
+    ((2 ^ 63 + 4) * 2 ^ 64 + (2 ^ 64 - 1)) / 2 ^ 64 < 2 ^ 63 + 5 ∧
+    NumModular.div2by1 64 (2 ^ 63 + 5) (NumModular.invertWord 64 (2 ^ 63 + 5)) ((2 ^ 63 + 4) * 2 ^ 64 + (2 ^ 64 - 1))
+      = (((2 ^ 63 + 4) * 2 ^ 64 + (2 ^ 64 - 1)) / (2 ^ 63 + 5), ((2 ^ 63 + 4) * 2 ^ 64 + (2 ^ 64 - 1)) % (2 ^ 63 + 5)) ∧
+    NumModular.invertDoubleWord 64 (2 ^ 127 + 1) + 2 ^ 64 = (2 ^ (3 * 64) - 1) / (2 ^ 127 + 1) := by
+  refine ⟨by decide, by decide, by decide, by decide, by decide +kernel, by decide +kernel⟩
+
+-- scratch memory: a Burnikel–Ziegler sized division (200 by 80 words) needs, and gets, a non-empty chunk
+example : (80 : Nat) ≤ 200 ∧ 2 ≤ 80 ∧ divMemReq 200 80 = .ok 92 ∧ memDivide 200 80 = .ok () := by
+  refine ⟨by decide, by decide, by decide +kernel, by decide +kernel⟩
+
+-- primitive kernels: i8 operands in range, neither zero divisor nor MIN / −1; and the two panics
+example : (⟨8, true⟩ : PrimDiv.PTy).InRange (-128) ∧ (⟨8, true⟩ : PrimDiv.PTy).InRange 3 ∧ (3 : Int) ≠ 0 ∧
+    ¬ ((⟨8, true⟩ : PrimDiv.PTy).signed ∧ (-128 : Int) = (⟨8, true⟩ : PrimDiv.PTy).lo ∧ (3 : Int) = -1) ∧
+    PrimDiv.divRemEuclid ⟨8, true⟩ (-128) 3 = .ok (-43, 1) ∧
+    PrimDiv.divRem ⟨8, true⟩ (-128) (-1) = .error PrimDiv.overflow ∧
+    (⟨8, true⟩ : PrimDiv.PTy).lo ≠ 0 := by
+  refine ⟨by decide, by decide, by decide, by decide, by decide, by decide, by decide⟩
 
 end Dashu.Props.C02
